@@ -32,14 +32,13 @@ class Arange(ArrayExpr):
 
     @functools.cached_property
     def dtype(self):
-        return (
-            self.operand("dtype")
-            or np.arange(
-                self.start,
-                self.stop,
-                self.step * self.num_rows if self.num_rows else self.step,
-            ).dtype
-        )
+        if self.operand("dtype") is not None:
+            return np.dtype(self.operand("dtype"))
+        return np.arange(
+            self.start,
+            self.stop,
+            self.step * self.num_rows if self.num_rows else self.step,
+        ).dtype
 
     @functools.cached_property
     def _meta(self):
@@ -86,7 +85,9 @@ class Linspace(Arange):
 
     @functools.cached_property
     def dtype(self):
-        return self.operand("dtype") or np.linspace(0, 1, 1).dtype
+        if self.operand("dtype") is not None:
+            return np.dtype(self.operand("dtype"))
+        return np.linspace(0, 1, 1).dtype
 
     @functools.cached_property
     def step(self):
